@@ -35,6 +35,8 @@ fn main() {
         "c14" => props::c14::run(&cfg),
         "c15" => props::c15::run(&cfg),
         "c11" => props::c11::run(&cfg),
+        "c09" => props::c09::run(&cfg),
+        "c10" => props::c10::run(&cfg),
         "c16" => props::c16::run(&cfg),
         "c01" => props::chain::run(&cfg, props::chain::Which::C01),
         "c03" => props::chain::run(&cfg, props::chain::Which::C03),
